@@ -218,8 +218,8 @@ def case_st(draw):
 
 @st.composite
 def long_case(draw):
-    """long irregular series consumed by one or a few coarse pulls (dozens of buffered publications per pull)"""
-    n = draw(st.integers(30, 90))
+    """long irregular series consumed by one or a few coarse pulls (dozens to hundreds of buffered publications per pull)"""
+    n = draw(st.one_of(st.integers(30, 90), st.integers(120, 300)))  # more than 2^7 / 2^8 source intervals in one pull
     pubs = [[draw(st.sampled_from([1, 5, 10, 10, 60, 180])), draw(st.integers(-20, 20))] for _ in range(n)]
     end = sum(g for g, _ in pubs[:-1])
     k = draw(st.integers(1, 3))
@@ -241,5 +241,5 @@ def long_case(draw):
 def parts():
     return [
         Part("histories", hs.with_epoch(check), strategy=hs.plus_epoch(case_st()), budget={"quick": 2000, "thorough": 60000}),
-        Part("long_series", hs.with_epoch(check), strategy=hs.plus_epoch(long_case()), budget={"quick": 120, "thorough": 4000}),
+        Part("long_series", hs.with_epoch(check), strategy=hs.plus_epoch(long_case()), budget={"quick": 120, "thorough": 4000}, shrink_budget=100),
     ]
